@@ -1,18 +1,42 @@
 // C08 - bundles compose and decompose losslessly, including nesting.
 #include "common/bundlegen.hpp"
+#include <rtosc/ports.h>
+#include <rtosc/port-sugar.h>
+#include <rtosc/subtree-serialize.h>
+
+// application object for the subtree_serialize sub-check
+struct SApp { int a = 0, b = 0; float f = 0; bool t = false; char c = 0; int hidden = 0; static rtosc::Ports ports; };
+#define rObject SApp
+rtosc::Ports SApp::ports = {
+    rParamI(a, "a"), rParamF(f, "f"), rToggle(t, "t"), rParam(c, "c"), rParamI(b, "b"),
+    {"hidden::i", rProp(internal) rDoc("not serialised"), NULL, rParamICb(hidden)},
+};
+#undef rObject
 
 using bg::Elem;
 
 struct Case {
   Elem root;
-  template <class A> void io(A &a) { a(root); }
-  std::string describe() const { return root.describe(); }
+  int kind = 0;                 // 0: compose/decompose ; 1: subtree_serialize of an application object
+  std::vector<int> vals;        // kind 1: parameter values
+  template <class A> void io(A &a) { a(root); if (a.more()) a(kind)(vals); }   // kind/vals: optional trailing fields (older case files end after root)
+  std::string describe() const {
+    if (kind == 0) return root.describe();
+    std::string d = "subtree_serialize of app with values";
+    for (int v : vals) d += " " + std::to_string(v);
+    return d;
+  }
 };
 const char *vf_property() { return "C08"; }
 void vf_init() {}
 
 Case vf_generate() {
   Case c;
+  if (vf::chance(15)) {
+    c.kind = 1;
+    for (int i = 0; i < 6; i++) c.vals.push_back(vf::chance(50) ? vf::pick<int>(-100, 100) : (int)vf::bits32());
+    return c;
+  }
   int depth = vf::pick<int>(0, 4);
   c.root = bg::gen_elem(depth, 8, vf::chance(90));
   return c;
@@ -82,7 +106,35 @@ static std::string decompose(const Elem &e, const char *p, size_t n, const std::
 
 static size_t count_elems(const Elem &e) { size_t c = 1; for (auto &k : e.kids) c += count_elems(k); return c; }
 
+static std::string run_serialize(const Case &c, vf::Ctx &ctx) {
+  SApp app;
+  app.a = c.vals[0]; app.b = c.vals[1]; app.f = (float)c.vals[2] / 8.0f; app.t = c.vals[3] & 1; app.c = (char)(c.vals[4] & 127); app.hidden = c.vals[5];
+  char buf[1024];
+  memset(buf, 0xAA, sizeof buf);
+  size_t len = subtree_serialize(buf, sizeof buf, &app, &SApp::ports);
+  // expected: one element per non-internal port, in table order, each the port's reply at its address
+  auto V = [](char t, uint32_t u) { refosc::Val v; v.t = t; v.u = u; return v; };
+  uint32_t fb; float ff = app.f; memcpy(&fb, &ff, 4);
+  std::vector<std::string> want = {
+      refosc::encode("/a", "i", {V('i', (uint32_t)app.a)}), refosc::encode("/f", "f", {V('f', fb)}), refosc::encode("/t", app.t ? "T" : "F", {V(app.t ? 'T' : 'F', 0)}),
+      refosc::encode("/c", "c", {V('c', (uint32_t)(int)app.c)}), refosc::encode("/b", "i", {V('i', (uint32_t)app.b)})};
+  std::string ref = refosc::encode_bundle(0xdeadbeef0a0b0c0dULL, want);
+  if (len != ref.size()) return "subtree_serialize returns " + std::to_string(len) + ", the bundle of the 5 replying ports has " + std::to_string(ref.size()) + " bytes";
+  if (!rtosc_bundle_p(buf)) return "subtree_serialize output is not recognised as a bundle";
+  if (rtosc_message_length(buf, len) != len) return "length function disagrees with subtree_serialize's return value";
+  size_t k = rtosc_bundle_elements(buf, len);
+  if (k != want.size()) return "serialised bundle reports " + std::to_string(k) + " elements, expected " + std::to_string(want.size());
+  for (size_t i = 0; i < want.size(); i++) {
+    if (rtosc_bundle_size(buf, (unsigned)i) != want[i].size() || memcmp(rtosc_bundle_fetch(buf, (unsigned)i), want[i].data(), want[i].size())) return "serialised element " + std::to_string(i) + " differs from the port's reply message";
+  }
+  if (memcmp(buf, ref.data(), len)) return "serialised bundle bytes differ from the reference encoding";
+  ctx.count("kind.subtree_serialize");
+  ctx.nontriv(vf::fnv(ref));
+  return "";
+}
+
 std::string vf_run(const Case &c, vf::Ctx &ctx) {
+  if (c.kind == 1) return run_serialize(c, ctx);
   std::string err;
   std::string bytes = build(c.root, err);
   if (!err.empty()) return err;
